@@ -312,6 +312,13 @@ where
     ) -> Option<ActionT> {
         let mut recoverer = None;
         let mut recovery_budget = Duration::from_millis(RECOVERY_TIME_BUDGET);
+        #[cfg(grmtools_verif)]
+        if let Some(ms) = std::env::var("GRMTOOLS_VERIF_RECOVERY_BUDGET_MS")
+            .ok()
+            .and_then(|v| v.parse::<u64>().ok())
+        {
+            recovery_budget = Duration::from_millis(ms);
+        }
         loop {
             debug_assert_eq!(astack.len(), spans.len());
             let stidx = *pstack.last().unwrap();
